@@ -265,8 +265,15 @@ int main(int argc, char ** argv)
         if (g2.is_initialized()) {
           Tape T(seed, hash_str(lab) ^ 0x4e4e);
           T.cap = 20000000;
-          for (long k = 0; k < std::max<long>(200, nrand / 20); k++) {
+          const long nrej = std::max<long>(20000, nrand);
+          for (long k = 0; k < nrej; k++) {
             double e1 = -1, e2 = -1;
+            if (k % 2 == 1) {
+              // every try draws (r1, r2, r3) and accepts when r3 * p_max < p(e1,e2): with r3 at 1e-12 every candidate of non-zero
+              // interpolated density is accepted, so the accepted pairs sweep the whole support, its rim included
+              T.reseed(seed, (hash_str(lab) ^ 0x4e4e) + (uint64_t)k);
+              for (size_t c3 = 2; c3 < 300; c3 += 3) T.pin(c3, 1e-12);
+            }
             try {
               g2.shoot_e1_e2(T, e1, e2);
             } catch (tape_exhausted &) {
